@@ -89,8 +89,9 @@ func (its *ordaMap) Put(key string, value interface{}) (interface{}, errors.Orda
 	return its.SentenceInTx(its.TxCtx, op, true)
 }
 
-func (its *ordaMap) Get(key string) interface{} {
-	return its.snapshot().get(key)
+func (its *ordaMap) Get(key string) (ret interface{}) {
+	its.DoRead(its.TxCtx, func() { ret = its.snapshot().get(key) })
+	return
 }
 
 func (its *ordaMap) Remove(key string) (interface{}, errors.OrdaError) {
@@ -101,8 +102,14 @@ func (its *ordaMap) Remove(key string) (interface{}, errors.OrdaError) {
 	return its.SentenceInTx(its.TxCtx, op, true)
 }
 
-func (its *ordaMap) Size() int {
-	return its.snapshot().size()
+func (its *ordaMap) ToJSON() (ret interface{}) {
+	its.DoRead(its.TxCtx, func() { ret = its.snapshot().ToJSON() })
+	return
+}
+
+func (its *ordaMap) Size() (ret int) {
+	its.DoRead(its.TxCtx, func() { ret = its.snapshot().size() })
+	return
 }
 
 // ////////////////////////////////////////////////////////////////
